@@ -25,8 +25,8 @@ impl<M: MovingAverageConstructor> Trix<M> {
 	ensures
 		!self.valid() ==> r is Err,
 		r is Ok ==> r->Ok_0.inv() && r->Ok_0.cfg == self && r->Ok_0.reverse.high.index == 0 && r->Ok_0.reverse.low.index == 0,
-		// documented seeds: the triple EMA, the 1-step change and the signal average start from the source price; the pivot detector from 0
-		r is Ok ==> self.signal.seeded(src_val(candle, self.source), &r->Ok_0.sig),
+		// documented seeds: the triple EMA and the 1-step change start from the source price; the signal average and the pivot detector from 0 (the main value of a constant stream)
+		r is Ok ==> self.signal.seeded(0real, &r->Ok_0.sig),
 		r is Ok ==> r->Ok_0.tma.tma.value@ == src_val(candle, self.source) && r->Ok_0.change.window.view().len() == 1
 			&& r->Ok_0.change.window.view()[0]@ == src_val(candle, self.source),
 		r is Ok ==> r->Ok_0.cross1.up.last_delta@ == 0real && r->Ok_0.cross2.up.last_delta@ == 0real,
